@@ -3,7 +3,7 @@
 From Coq Require Import List Arith Bool.
 Import ListNotations.
 From SV Require Import Base.Ops Base.Arr Base.Sums Model.Vec3 Model.Exchange Model.Kang
-  Spec.ExchangeSpec Spec.KangSpec Proofs.ExchangeL0 Proofs.KangRefine Proofs.KangInvariance.
+  Spec.ExchangeSpec Spec.KangSpec Proofs.ExchangeL0 Proofs.KangRefine Proofs.KangInvariance Proofs.KangPlacement.
 
 (** (1a) [get_form_factor] addresses the right column: in a row laid out as
     [calculate_form_factor] writes it (the blocks of the other walls, in the order of the
@@ -145,12 +145,26 @@ Theorem C19_translate {T} {O : Ops T} {RL : RingLaws T} {OL : OrderLaws T} (sc :
 Proof. exact (kang_translate v sc). Qed.
 Print Assumptions C19_translate.
 
-(** (6) cyclic permutation of the axes x -> y -> z -> x, partial: centre-to-centre,
-    source-patch, patch-receiver and source-receiver distances (hence all delays, the air
-    attenuation and the direct-sound term) are invariant; by (1b)/(2b) the recursion depends on
-    the geometry only through these, the form factors and the order-0 energies. *)
-Theorem C19_cyclic_partial {T} {O : Ops T} {RL : RingLaws T} (a b : @vec T) :
+(** (6) cyclic permutation of the axes x -> y -> z -> x (patch centres, sizes, normals, wall centres,
+    source, receiver) on an axis-aligned scene -- every normal has exactly one component above the
+    thresholds 1e-5 and 0.99, orthogonal walls have different normal axes, the centres of
+    non-orthogonal (parallel) walls differ along exactly one axis -- changes nothing either: form
+    factors, order-0 energies, every order of every wall (patch by patch, in the given patch order),
+    the response. *)
+Theorem C19_cyclic {T} {O : Ops T} {RL : RingLaws T} (sc : @kscene T) :
+  cyc_ok sc ->
+  kang_ffs (cyc_scene sc) = kang_ffs sc /\
+  (forall N, kinit (cyc_scene sc) N = kinit sc N) /\
+  (forall K, kang_run (cyc_scene sc) K = kang_run sc K) /\
+  (forall E K recv ign, kang_resp (cyc_scene sc) E K (vcyc recv) ign = kang_resp sc E K recv ign).
+Proof. exact (kang_cyclic sc). Qed.
+Print Assumptions C19_cyclic.
+
+(** (6') without any assumption on the scene: all distances (centre-to-centre, source-patch,
+    patch-receiver, source-receiver), hence all delays, the air attenuation and the direct-sound
+    term, are invariant under the cyclic permutation. *)
+Theorem C19_cyclic_distances {T} {O : Ops T} {RL : RingLaws T} (a b : @vec T) :
   vnorm (vsub (vcyc a) (vcyc b)) = vnorm (vsub a b) /\
   tsqrt (vdist2 (vcyc a) (vcyc b)) = tsqrt (vdist2 a b).
 Proof. exact (vcyc_dist a b). Qed.
-Print Assumptions C19_cyclic_partial.
+Print Assumptions C19_cyclic_distances.
